@@ -773,7 +773,13 @@ func (z *Decimal) FMA(x, y, u *Decimal) *Decimal {
 	}
 
 	if u.form == zero {
-		return z.Mul(x, y)
+		uneg := u.neg
+		z.Mul(x, y)
+		if z.form == zero && z.acc == Exact && z.neg != uneg {
+			// exact zero sum of zeros with opposite signs (IEEE 754-2008, 6.3)
+			z.neg = z.mode == ToNegativeInf
+		}
+		return z
 	}
 	// 0 < |u| <= Inf
 
